@@ -107,8 +107,31 @@ def canRollback (conf : List Blk) (m : Mgr) (t : Tx) : Option AddRes :=
     | none => some .missingPrevious
     | some tp => if tp.id ≠ t.prev then some .previousMismatch else none
 
-/-- `addAccountBlockTransaction(transaction, forceAdd)` for the address of the transaction; `pop` = the manager's Pop -/
-def addTxWith (pop : Mgr → Option Mgr) (s : AState) (t : Tx) (force : Bool) : AState × AddRes :=
+/-- REPAIRED `canRollback` (candidate fix of FDF1): the transaction starts right after `previous`, so "too old" also
+    means `stable.Height > previous.Height`, the first transaction of an account is the one whose previous is the zero
+    identifier, and the block that must be `previous` is the one stored at `previous.Height`. For one-block
+    transactions this is the rule above. -/
+def canRollbackR (conf : List Blk) (m : Mgr) (t : Tx) : Option AddRes :=
+  if (lastId conf).2 ≥ t.head.height ∨ (lastId conf).2 > t.prev.2 then some .olderThanStable
+  else if t.prev = zeroId then none
+  else match byHeight m.view t.prev.2 with
+    | none => some .missingPrevious
+    | some tp => if tp.id ≠ t.prev then some .previousMismatch else none
+
+/-- REPAIRED competitor lookup: the block that carries the pooled transaction whose first commit is stored at height
+    `h` — the first block at or above `h` that is not a ContractSend (descendants lie below their receive); heights are
+    natural numbers here (the uint64 counter would have to pass a stored ContractSend at height 2^64-1 to wrap) -/
+def headAt (view : List Blk) : Nat → Nat → Option Blk
+  | 0, _ => none
+  | fuel + 1, h =>
+    match byHeight view h with
+    | none => none
+    | some b => if isContractSend b.btype then headAt view fuel (h + 1) else some b
+
+/-- `addAccountBlockTransaction(transaction, forceAdd)` for the address of the transaction; `pop` = the manager's Pop,
+    `canRb` = canRollback, `rivalOf m t trueBlock` = the block `higherPriority` compares the transaction's head with -/
+def addTxWith (pop : Mgr → Option Mgr) (canRb : List Blk → Mgr → Tx → Option AddRes)
+    (rivalOf : Mgr → Tx → Option Blk → Option Blk) (s : AState) (t : Tx) (force : Bool) : AState × AddRes :=
   let m := s.manager
   let s1 : AState := { s with mgr := some m }            -- getFrontierAccountStore created the manager
   if t.prev = m.frontierId then
@@ -118,10 +141,10 @@ def addTxWith (pop : Mgr → Option Mgr) (s : AState) (t : Tx) (force : Bool) : 
   else
     let trueBlock := byHeight m.view t.head.height
     if trueBlock.map Blk.id = some t.id then (s1, .already)
-    else match canRollback s.confirmed m t with
+    else match canRb s.confirmed m t with
       | some e => (s1, e)
       | none =>
-        match trueBlock with
+        match rivalOf m t trueBlock with
         | none => (s1, .nilDeref)
         | some tb =>
           let pr := higherPriority t.head tb
@@ -134,7 +157,13 @@ def addTxWith (pop : Mgr → Option Mgr) (s : AState) (t : Tx) (force : Bool) : 
               | some m'' => ({ s with mgr := some m'' }, .replaced)
               | none => ({ s with mgr := some m' }, .addFailed)
 
-def addTx : AState → Tx → Bool → AState × AddRes := addTxWith Mgr.pop
+/-- the code as it is: `higherPriority(block, trueBlock)` with the block stored at the HEAD's height -/
+def addTx : AState → Tx → Bool → AState × AddRes := addTxWith Mgr.pop canRollback (fun _ _ tb => tb)
+
+/-- the REPAIRED rule (candidate fix of FDF1, fdf1_fix.diff): the head is compared with the block that carries the pooled
+    transaction starting right after `Previous()`; a missing competitor is an error, not a nil dereference -/
+def addTxR : AState → Tx → Bool → AState × AddRes :=
+  addTxWith Mgr.pop canRollbackR (fun m t _ => headAt m.view (m.view.length + 1) (t.prev.2 + 1))
 
 /-- the transaction `rebuild` re-adds for the block it read at some height: the stored block carries its descendant
     blocks (they are part of its serialisation), i.e. it is the last pooled transaction with that head; a block that
@@ -185,6 +214,11 @@ def upd (s : PoolSt) (a : Addr) (x : AState) : PoolSt := fun b => if b = a then 
 /-- `AddAccountBlockTransaction` / `ForceAddAccountBlockTransaction` of a transaction of address `a` -/
 def addAt (s : PoolSt) (a : Addr) (t : Tx) (force : Bool) : PoolSt × AddRes :=
   let r := addTx (s a) t force
+  (upd s a r.1, r.2)
+
+/-- the same with the REPAIRED rule -/
+def addAtR (s : PoolSt) (a : Addr) (t : Tx) (force : Bool) : PoolSt × AddRes :=
+  let r := addTxR (s a) t force
   (upd s a r.1, r.2)
 
 /-- the account blocks a momentum confirms for address `a`, in the order of its content (descendants included) -/
